@@ -459,3 +459,105 @@ fn c05_bitmap_window_length_validation() {
     }
     kani::cover!(exact && len == 32 && r.is_ok(), "full 32-octet window accepted");
 }
+
+// ------------------------------------------------------------ more types
+use domain::rdata::dnssec::RtypeBitmap;
+use domain::rdata::nsec3::{Nsec3Salt, OwnerHash};
+
+// @funcs: Nsec3param::{new,parse,compose_rdata,rdlen,eq}, Nsec3Salt::{from_octets,parse,compose}
+// @bound: all algorithm/flags/iterations values, salts of 0..=3 symbolic octets; wire = alg(1) flags(1) iterations(2) saltlen(1) salt
+#[kani::proof]
+#[kani::unwind(8)]
+fn c05_nsec3param() {
+    let (alg, fl, it): (u8, u8, u16) = (kani::any(), kani::any(), kani::any());
+    let salt = Bytes::<3>::any();
+    let v = Nsec3param::new(Nsec3HashAlgorithm::from_int(alg), fl, it, Nsec3Salt::from_octets(salt.s()).unwrap());
+    let (buf, _, n) = rt_checks!(v, Nsec3param::parse, true);
+    assert!(n == 5 + salt.n && buf.data[0] == alg && buf.data[1] == fl && be16(&buf.data, 2) == it);
+    assert!(buf.data[4] as usize == salt.n && has(&buf.data, 5, salt.s()));
+}
+
+// @funcs: Nsec3::{new,parse,compose_rdata,rdlen,eq}, OwnerHash::{from_octets,parse,compose}, RtypeBitmap::{from_octets,parse,compose}
+// @bound: all fixed fields, salt and next-owner hash of 2 symbolic octets each (concrete lengths), a one-window type bitmap with 1 symbolic octet of bits; wire = alg flags iterations saltlen salt hashlen hash bitmap
+#[kani::proof]
+#[kani::unwind(8)]
+fn c05_nsec3() {
+    let (alg, fl, it): (u8, u8, u16) = (kani::any(), kani::any(), kani::any());
+    let (salt, hash): ([u8; 2], [u8; 2]) = (kani::any(), kani::any());
+    let (win, bits): (u8, u8) = (kani::any(), kani::any());
+    kani::assume(bits != 0);
+    let bm = [win, 1, bits];
+    let v = Nsec3::new(
+        Nsec3HashAlgorithm::from_int(alg),
+        fl,
+        it,
+        Nsec3Salt::from_octets(&salt[..]).unwrap(),
+        OwnerHash::from_octets(&hash[..]).unwrap(),
+        RtypeBitmap::from_octets(&bm[..]).unwrap(),
+    );
+    let (buf, _, n) = rt_checks!(v, Nsec3::parse, true);
+    assert!(n == 4 + 1 + 2 + 1 + 2 + 3);
+    assert!(buf.data[0] == alg && buf.data[1] == fl && be16(&buf.data, 2) == it);
+    assert!(buf.data[4] == 2 && has(&buf.data, 5, &salt) && buf.data[7] == 2 && has(&buf.data, 8, &hash) && has(&buf.data, 10, &bm));
+}
+
+// @funcs: Caa::{new,parse,compose_rdata,rdlen,eq}, CaaTag::{from_octets,check_slice}, CaaFlags
+// @bound: all flag octets, tags of 1..=2 symbolic alphanumeric octets (other tags: constructor must refuse), values of 0..=3 symbolic octets
+#[kani::proof]
+#[kani::unwind(8)]
+fn c05_caa() {
+    use domain::rdata::caa::{Caa, CaaFlags, CaaTag};
+    let fl: u8 = kani::any();
+    let tag: [u8; 2] = kani::any();
+    let val = Bytes::<3>::any();
+    let alnum = |c: u8| (c >= b'0' && c <= b'9') || (c >= b'a' && c <= b'z') || (c >= b'A' && c <= b'Z');
+    match CaaTag::from_octets(&tag[..]) {
+        Ok(t) => {
+            assert!(alnum(tag[0]) && alnum(tag[1]));
+            let v = Caa::new(CaaFlags::new(fl), t, val.s());
+            let (buf, _, n) = rt_checks!(v, Caa::parse, true);
+            assert!(n == 2 + 2 + val.n && buf.data[0] == fl && buf.data[1] == 2 && has(&buf.data, 2, &tag) && has(&buf.data, 4, val.s()));
+        }
+        Err(_) => assert!(!(alnum(tag[0]) && alnum(tag[1]))),
+    }
+}
+
+// @funcs: Zonemd::{new,parse,compose_rdata,rdlen,eq}
+// @bound: all serial/scheme/algorithm values, digest of exactly 12 symbolic octets (the minimum the parser accepts); wire = serial(4) scheme(1) alg(1) digest
+#[kani::proof]
+#[kani::unwind(16)]
+fn c05_zonemd() {
+    let (ser, sch, alg): (u32, u8, u8) = (kani::any(), kani::any(), kani::any());
+    let dig: [u8; 12] = kani::any();
+    let v = Zonemd::new(Serial(ser), ZonemdScheme::from(sch), ZonemdAlgorithm::from(alg), &dig[..]);
+    let (buf, _, n) = rt_checks!(v, Zonemd::parse, true);
+    assert!(n == 18 && be32(&buf.data, 0) == ser && buf.data[4] == sch && buf.data[5] == alg && has(&buf.data, 6, &dig));
+}
+
+// @funcs: Minfo, Rp ::{new,compose_rdata,compose_canonical_rdata,rdlen}
+// @bound: two flat names with structures (2,1) and (1,2), symbolic content; wire = both names; canonical = both lower-cased (RFC 4034 6.2 lists MINFO and RP)
+#[kani::proof]
+#[kani::unwind(10)]
+fn c05_minfo_rp_compose() {
+    let (a, b) = (FlatName::any::<2, 1>(), FlatName::any::<1, 2>());
+    let (la, lb) = (a.lower(), b.lower());
+    let rp: bool = kani::any();
+    let (buf, cb) = if rp { compose_checks!(Rp::new(a.name(), b.name())) } else { compose_checks!(Minfo::new(a.name(), b.name())) };
+    assert!(buf.len == a.n + b.n && has(&buf.data, 0, &a.w[..a.n]) && has(&buf.data, a.n, &b.w[..b.n]));
+    assert!(has(&cb.data, 0, &la[..a.n]) && has(&cb.data, a.n, &lb[..b.n]));
+}
+
+// @funcs: Nsec::{new,compose_rdata,compose_canonical_rdata,rdlen}
+// @bound: next name with structure (2,1) and symbolic content, one-window bitmap with symbolic bits; wire = name + bitmap; canonical form keeps the next name's case (RFC 6840 5.1 removed NSEC from the lower-casing list)
+#[kani::proof]
+#[kani::unwind(10)]
+fn c05_nsec_compose() {
+    let nm = FlatName::any::<2, 1>();
+    let (win, bits): (u8, u8) = (kani::any(), kani::any());
+    kani::assume(bits != 0);
+    let bm = [win, 1, bits];
+    let v = Nsec::new(nm.name(), RtypeBitmap::from_octets(&bm[..]).unwrap());
+    let (buf, cb) = compose_checks!(v);
+    assert!(buf.len == nm.n + 3 && has(&buf.data, 0, &nm.w[..nm.n]) && has(&buf.data, nm.n, &bm));
+    assert!(has(&cb.data, 0, &nm.w[..nm.n]) && has(&cb.data, nm.n, &bm));
+}
